@@ -17,7 +17,9 @@ REPO = os.environ.get("VERIF_REPO", "/repo")
 
 
 def base_name(n):
-    return re.sub(r"/p\d+$", "", n)
+    """obligation name without the path ordinal and without source line offsets (stable under
+    edits that only move lines)"""
+    return re.sub(r"@\+\d+", "", re.sub(r"/p\d+$", "", n))
 
 
 def load_json(path, default):
@@ -31,6 +33,18 @@ def safe(name):
     import hashlib
 
     return re.sub(r"[^A-Za-z0-9_.+#-]+", "_", name)[:120] + "-" + hashlib.sha1(name.encode()).hexdigest()[:8]
+
+
+def guarded(fn, args, seconds, default):
+    """run a native (CPython, real code) search in a forked child with a hard deadline: a changed
+    tree may loop in ways a signal handler cannot interrupt"""
+    from pyvc.solve import run_with_deadline
+
+    ok, val = run_with_deadline(fn, args, seconds)
+    if ok:
+        return val
+    print(f"note: native search {getattr(fn, '__name__', fn)} did not finish: {str(val).splitlines()[0][:200]}")
+    return default
 
 
 def main(argv=None):
@@ -99,6 +113,8 @@ def run(prop, a, seed, t0):
                 errors.append(r)
             continue
         for o in r["obligations"]:
+            if not prop.wants(o["name"]):
+                continue  # an obligation of the shared analysis that belongs to another property
             res = o["result"]
             solver_time += res["time"]
             if o["kind"] == "cover":
@@ -123,14 +139,18 @@ def run(prop, a, seed, t0):
                 else:
                     undecided.append((r, o))
     # ground (finite, exhaustive) obligations
-    grounds = prop.ground(W, a.tier, seed)
+    grounds = guarded(prop.ground, (W, a.tier, seed), 600, None)
+    if grounds is None:
+        from props.base import Ground
+
+        grounds = [Ground(f"{prop.id}/ground-obligations-evaluated", False, "the exhaustive evaluation did not finish within its deadline")]
     for g in grounds:
         n_ob += 1
         by_kind["ground"] = by_kind.get("ground", 0) + 1
         if g.ok:
             n_ok += 1
             by_backend["cpython-exhaustive"] = by_backend.get("cpython-exhaustive", 0) + 1
-    bounded = prop.bounded(W, a.tier, seed)
+    bounded = guarded(prop.bounded, (W, a.tier, seed), 900 if a.tier != "thorough" else 7200, [])
 
     out_lines = []
     n_viol = 0
@@ -154,10 +174,7 @@ def run(prop, a, seed, t0):
 
     for r, o, why in violations:
         witness = None
-        try:
-            witness = prop.replay(W, r, o)
-        except Exception as e:  # noqa
-            witness = None
+        witness = guarded(prop.replay, (W, r, o), 240, None)
         payload = dict(property=prop.id, obligation=o["name"], kind=o["kind"], function=r["key"], where=o["where"], verdict=why, solver=o["result"], witness=witness,
                        how_to_replay=f"./check {prop.id} --replay <this file>")
         report_violation(base_name(o["name"]), payload, json.dumps(witness, ensure_ascii=False, default=str) if witness else "", witness is not None)
@@ -173,7 +190,7 @@ def run(prop, a, seed, t0):
     for r in stale:
         witness = None
         if r["key"] in W.contracts:
-            witness = prop.stale_search(W, r["key"], seed)
+            witness = guarded(prop.stale_search, (W, r["key"], seed), 300, None)
         if witness is not None:
             payload = dict(property=prop.id, obligation=r["key"] + "/contract", kind="stale+bounded-search", function=r["key"], error=r["error"], witness=witness)
             report_violation(r["key"] + "/contract", payload, json.dumps(witness, ensure_ascii=False, default=str), True)
@@ -203,7 +220,7 @@ def run(prop, a, seed, t0):
         errors.append(dict(key="all", error="zero obligations"))
 
     if a.update_lock:
-        lock[prop.id] = sorted({base_name(o["name"]) for r in reports for o in r["obligations"] if o["ok"] and o["kind"] != "cover"} | {g.name for g in grounds if g.ok})
+        lock[prop.id] = sorted({base_name(o["name"]) for r in reports for o in r["obligations"] if o["ok"] and o["kind"] != "cover" and prop.wants(o["name"])} | {g.name for g in grounds if g.ok})
         json.dump(lock, open(os.path.join(ROOT, "obligations.lock"), "w"), indent=0, sort_keys=True)
 
     ev = dict(
